@@ -579,3 +579,144 @@ func TestVerifC03SerialiserHistories(t *testing.T) {
 		}
 	})
 }
+
+// --- every way of writing the same block with wider CBOR heads, the CRC bytes left as they were ---
+
+type c03WidthCase struct {
+	Spec vk.BundleSpec `json:"spec"`
+}
+
+func c03WalkItems(it *vk.Item, f func(*vk.Item)) {
+	f(it)
+	for _, s := range it.Items {
+		c03WalkItems(s, f)
+	}
+}
+
+// c03WrongCRCs returns copies of raw in which every block's CRC value is replaced by a value computed
+// in one particular wrong way (the same way for all blocks of one copy).
+func c03WrongCRCs(raw []byte) [][]byte {
+	w, err := vk.ReadBundle(raw)
+	if err != nil {
+		return nil
+	}
+	type blk struct {
+		start, end int
+		typ        uint64
+		crc        *vk.Item
+	}
+	var blks []blk
+	blks = append(blks, blk{w.Primary.Item.Start, w.Primary.Item.End, w.Primary.CRCType, w.Primary.CRCItem})
+	for i := range w.Blocks {
+		blks = append(blks, blk{w.Blocks[i].Item.Start, w.Blocks[i].Item.End, w.Blocks[i].CRCType, w.Blocks[i].CRCItem})
+	}
+	var out [][]byte
+	for mode := 0; mode < 3; mode++ {
+		cp := append([]byte(nil), raw...)
+		for _, b := range blks {
+			n := 0
+			switch {
+			case b.typ == 1 && b.crc != nil && len(b.crc.Bytes) == 2:
+				n = 2
+			case b.typ == 2 && b.crc != nil && len(b.crc.Bytes) == 4:
+				n = 4
+			}
+			if n == 0 || b.crc.End != b.end {
+				continue
+			}
+			var data []byte
+			switch mode {
+			case 0: // the last 1+n bytes of the block are assumed to be the canonical CRC field
+				data = append([]byte(nil), raw[b.start:b.end-(1+n)]...)
+				data = append(data, byte(0x40+n))
+				data = append(data, make([]byte, n)...)
+			case 1: // the CRC field is left out altogether
+				data = append([]byte(nil), raw[b.start:b.crc.Start]...)
+			case 2: // the block up to the CRC value, nothing for the value
+				data = append([]byte(nil), raw[b.start:b.end-n]...)
+			}
+			if n == 2 {
+				v := vk.CRC16X25(data)
+				cp[b.end-2], cp[b.end-1] = byte(v>>8), byte(v)
+			} else {
+				v := vk.CRC32C(data)
+				cp[b.end-4], cp[b.end-3], cp[b.end-2], cp[b.end-1] = byte(v>>24), byte(v>>16), byte(v>>8), byte(v)
+			}
+		}
+		out = append(out, cp)
+	}
+	return out
+}
+
+func TestVerifC03HeadWidths(t *testing.T) {
+	vfRegisterCustom()
+	u := vk.Unit{Property: "C03", Name: "c03.head-widths", Quick: 120, Thorough: 6000,
+		Rule: "for each generated fully CRC-protected bundle: EVERY CBOR head inside every block (array heads, integers, string lengths, and the length head of the CRC field itself) is re-written in every wider form (1-, 2-, 4-, 8-byte argument), one at a time (exhaustive per bundle), with the CRC bytes left as they were, with the CRC re-computed independently over the new bytes, and with CRC values computed in three plausible wrong ways (block tail taken for a canonical CRC field, CRC field left out, value bytes dropped); oracle: whenever the parser accepts, every CRC equals the independent CRC over exactly the received bytes; non-trivial = the re-written head is the CRC field's own length head or the block's array head; distinct by mutant bytes"}
+	vk.Check(t, u, func(t *rapid.T) c03WidthCase {
+		o := c03Opts
+		o.SmallPayload = true
+		o.MaxExt = 3
+		return c03WidthCase{Spec: vk.GenBundle(o).Draw(t, "bundle")}
+	}, func(c *vk.Ctx, cs c03WidthCase) {
+		raw := cs.Spec.Encode(vfNowDtn())
+		top, err := vk.DecodeItem(raw, 0)
+		if err != nil || top.End != len(raw) {
+			c.Failf("c03.harness", "own encoding does not decode: %v", err)
+		}
+		// count the heads
+		n := 0
+		c03WalkItems(top, func(it *vk.Item) { n++ })
+		checked, accepted := 0, 0
+		for idx := 1; idx < n; idx++ { // 0 is the outer indefinite array
+			for _, hn := range []int{2, 3, 5, 9} {
+				t2 := vk.CloneItem(top)
+				k := 0
+				var target *vk.Item
+				c03WalkItems(t2, func(it *vk.Item) {
+					if k == idx {
+						target = it
+					}
+					k++
+				})
+				if target == nil || target.Indef || target.Major == vk.MajOther || target.HeadN >= hn {
+					continue
+				}
+				target.HeadN = hn
+				var e vk.Enc
+				vk.EncodeItem(t2, &e)
+				stale := e.B
+				variants := [][]byte{stale, vk.FixCRCs(stale)}
+				names := []string{"original", "re-computed"}
+				// CRC values a parser would expect if it delimited or normalised the block in a plausible
+				// WRONG way (each must be rejected, because it is not the CRC over the received bytes):
+				// the tail of the block taken to be a canonical, minimally encoded CRC field; the CRC
+				// field left out; the CRC value bytes not zeroed
+				for wi, wrong := range c03WrongCRCs(stale) {
+					variants = append(variants, wrong)
+					names = append(names, fmt.Sprintf("wrongly computed (%d)", wi))
+				}
+				for variant, mut := range variants {
+					if mut == nil || bytes.Equal(mut, raw) {
+						continue
+					}
+					checked++
+					if _, err := vfParse(mut); err != nil {
+						continue
+					}
+					accepted++
+					w, err := vk.ReadBundle(mut)
+					if err != nil {
+						continue
+					}
+					if p := w.CheckCRCs(); len(p) > 0 {
+						c.Failf("c03.accepted-bad-crc", "head %d re-written with a %d-byte head (%s CRC bytes): parser accepts %x… although: %s", idx, hn, names[variant], vfTrunc(mut), p[0])
+					}
+				}
+			}
+		}
+		if checked > 0 {
+			c.NonTrivial()
+		}
+		c.Classf("accepted re-writings: %v", accepted > 0)
+	})
+}
